@@ -110,6 +110,8 @@ impl RequestHandler<Completion> for CompletionHandler {
                         label: sym.to_string(),
                         ..Default::default()
                     }))
+                    // (the symbols come out of a map, which has no order of its own)
+                    .sorted_by(|a, b| a.label.cmp(&b.label))
                     .collect_vec();
                 return Ok(Some(CompletionResponse::from(items)));
             }
